@@ -47,6 +47,9 @@ def build_py(spec, upto=None):
         try:
             names = m.add_nodes(p["name"], val(p["init"]), val(p["rate"]), val(p["cap"]))
             results.append(("ok", list(names)))
+            # the caller owns the returned list: whatever it does with it must not reach the MIRP's own bookkeeping
+            names.append("caller-appended")
+            names.reverse()
         except Exception as e:  # noqa
             results.append((core.err_kind(e), repr(e)))
             return m, results
